@@ -5,10 +5,10 @@ from mc import core, det, vnet, fe
 PROPERTY = 'C12'
 ENGINE = 'E3 stateless exploration of ALL delivery/timer schedules of 2 (deviation-bounded: 3) scripted raw connections against the real handler, ServicesManager and websockets on the virtual network'
 LEVEL = 'model_checking'
-SCRIPTS = {'C': ['config'], 'CU': ['config', 'upload'], 'U': ['upload'], 'S': ['search'], 'CUS': ['config', 'upload', 'search']}
+SCRIPTS = {'C': ['config'], 'CU': ['config', 'upload'], 'U': ['upload'], 'S': ['search'], 'CUS': ['config', 'upload', 'search'], 'X': []}
 REQ = {'config': 'config', 'upload': 'upload_edb', 'search': 'token'}
 REPLY = {'config': 'config', 'upload_edb': 'upload', 'result': 'search'}
-TRIPLES = [('C', 'S', 'S'), ('C', 'C', 'C'), ('CU', 'U', 'S'), ('C', 'U', 'S'), ('CU', 'CU', 'S'), ('C', 'CU', 'U')]
+TRIPLES = [('C', 'S', 'S'), ('C', 'C', 'C'), ('CU', 'U', 'S'), ('C', 'U', 'S'), ('CU', 'CU', 'S'), ('C', 'CU', 'U'), ('CU', 'X', 'U'), ('CU', 'X', 'S'), ('C', 'X', 'C')]
 VTIME_HORIZON = 90.0
 LIMIT2 = {'quick': 3000, 'thorough': 40000}
 BOUND3 = {'quick': 2, 'thorough': 4}
@@ -18,7 +18,7 @@ LIMIT3 = {'quick': 1500, 'thorough': 60000}
 def describe(tier):
     return {
         'rule': 'execution = (initial durable state s0 in {0,1,2} prepared by a sequential prefix, k scripted raw connections on one sid, schedule); '
-                'scripts from {[config],[config,upload],[upload],[search],[config,upload,search]} each ending in close, every connection with its own '
+                'scripts from {[config],[config,upload],[upload],[search],[config,upload,search],[] (open, then close without a request - possibly while still waiting)} each ending in close, every connection with its own '
                 'distinguishable configuration and index; a scripted client sends its next request as soon as it has its reply. Choice points = which '
                 'connection\'s next server-bound frame (init, request, close frame, EOF) is delivered next and whether the server\'s 1 s cleanup timer '
                 'fires first; per-connection FIFO; client-bound frames and HTTP upgrades are delivered eagerly. ALL schedules are enumerated for '
